@@ -1,0 +1,71 @@
+//go:build verif
+
+package pokertable
+
+import (
+	"github.com/weedbox/pokertable/open_game_manager"
+	"github.com/weedbox/pokertable/seat_manager"
+	"github.com/weedbox/syncsaga"
+)
+
+// Verification hooks. Compiled only with `-tags verif`; they add read access to
+// (and decoration of) engine internals for the machinery under /verif and do not
+// change any behaviour of the engine.
+
+// VerifSeatManager returns the engine's seat manager (nil before CreateTable).
+func VerifSeatManager(te TableEngine) seat_manager.SeatManager {
+	return te.(*tableEngine).sm
+}
+
+// VerifSetSeatManager replaces the engine's seat manager (used to install a
+// recording decorator around the original one).
+func VerifSetSeatManager(te TableEngine, sm seat_manager.SeatManager) {
+	te.(*tableEngine).sm = sm
+}
+
+// VerifOpenGameManager returns the engine's open-game gate (nil before CreateTable).
+func VerifOpenGameManager(te TableEngine) open_game_manager.OpenGameManager {
+	return te.(*tableEngine).ogm
+}
+
+// VerifSetOpenGameManager replaces the engine's open-game gate (used to install a
+// decorator that signals when a set-up has completed).
+func VerifSetOpenGameManager(te TableEngine, ogm open_game_manager.OpenGameManager) {
+	te.(*tableEngine).ogm = ogm
+}
+
+// VerifSetGameBackend replaces the engine's game backend (used to wrap the
+// backend of engines created through the Manager).
+func VerifSetGameBackend(te TableEngine, gb GameBackend) {
+	te.(*tableEngine).gameBackend = gb
+}
+
+// VerifGameBackend returns the engine's game backend.
+func VerifGameBackend(te TableEngine) GameBackend {
+	return te.(*tableEngine).gameBackend
+}
+
+// VerifGameReadyGroup returns the ready group of the current hand (nil if none).
+func VerifGameReadyGroup(te TableEngine) *syncsaga.ReadyGroup {
+	g, ok := te.(*tableEngine).game.(*game)
+	if !ok || g == nil {
+		return nil
+	}
+	return g.rg
+}
+
+// VerifIsReleased reports whether the engine has been released/closed.
+func VerifIsReleased(te TableEngine) bool {
+	return te.(*tableEngine).isReleased
+}
+
+// VerifTryLock reports whether the engine lock is currently free (it takes and
+// immediately releases it).
+func VerifTryLock(te TableEngine) bool {
+	e := te.(*tableEngine)
+	if e.lock.TryLock() {
+		e.lock.Unlock()
+		return true
+	}
+	return false
+}
